@@ -44,7 +44,7 @@ def consistent_file(r, n, base=None):
     style, quoted, sep, tr, rep = base.style, base.quoted, base.sep, base.trailing, base.repeated
     fmt = "gtf" if (style == "space" and quoted) else "gff3"
     allkeys = (["gene_id", "transcript_id"] if fmt == "gtf" else ["ID", "Parent"]) + r.sample(
-        ["Name", "Note", "k1", "a_b", "x.y", "Alias", "tag", "exon_number"], 5)
+        ["Name", "Note", "k1", "a_b", "x.y", "Alias", "tag", "exon_number", "Größe", "Länge", "名前"], 5)
     specs = []
     for i in range(n):
         s = gen_spec.Spec()
